@@ -1,6 +1,7 @@
 (* C06 - `**` does not traverse symlinked directories unless asked; glob terminates.  Statements only. *)
 From WC Require Import Str Glob.
-From WC.Proofs Require Import GlobLemmas.
+From WC.Proofs Require Import GlobLemmas GlobSplitLemmas.
+From WC Require Import GlobSplit.
 
 (* the walk descends into a listed entry only if it is a non-hidden directory that is not a symlink, unless links
    are followed (FOLLOW without GLOBSTARLONG) or the part is `***`: stated on the directories the deep walk lists,
@@ -15,3 +16,15 @@ Theorem C06_descent_rule : forall scandir cf fuel curdir dir_only gf d,
     (islink = false \/ g_follow cf = true \/ gf = true).
 Proof. exact listed_rule. Qed.
 Print Assumptions C06_descent_rule.
+
+(* a run of consecutive `**`/`***` segments becomes ONE part, and that part follows symlinks (globstarlong) iff
+   one of the merged segments is `***` under GLOBSTARLONG *)
+Theorem C06_globstar_runs_merge : forall cf v before last d,
+  (gs_globstarlong cf && str_eqb v (S_ "***")) || (gs_globstar cf && str_eqb v (S_ "**")) = true ->
+  gp_gstar last = true ->
+  g_store cf v (before ++ [last]) d =
+  before ++ [{| gp_text := v; gp_magic := g_is_magic cf v; gp_gstar := true;
+                gp_gstarlong := (gs_globstarlong cf && str_eqb v (S_ "***")) || gp_gstarlong last;
+                gp_dironly := d; gp_drive := false |}].
+Proof. exact store_merges_globstars. Qed.
+Print Assumptions C06_globstar_runs_merge.
